@@ -11,4 +11,7 @@ func init() {
 			"def($r0, _.GetClientByClientID(_, $jwtReq.Issuer), 0)", "ok(_.GetClientByClientID(_, $jwtReq.Issuer))",
 			"eq($r0.AuthMethod(), oidc.AuthMethodPrivateKeyJWT)",
 		})
+	// "the caller is authenticated as the very client ..." (C04, C07), "act for a client only after it has authenticated" (C05):
+	// the private_key_jwt proof is part of their verdicts too
+	guarAlso["op.AuthorizePrivateJWTKey"] = append(guarAlso["op.AuthorizePrivateJWTKey"], "C04", "C05", "C07")
 }
